@@ -17,6 +17,7 @@ pub mod env {
     pub fn elev_ok(o: f64, z: f64) -> bool { elev(o, z).validate().is_ok() }
     pub fn sl_ok(s: f64, e: f64, v: f64) -> bool { sl(s, e, v).validate().is_ok() }
     pub fn heading_ok(o: f64, h: f64) -> bool { heading(o, h).validate().is_ok() }
+    pub fn sparam_ok(x: f64, axle: bool) -> bool { SpeedParam { limit_val: Q(x), limit_type: if axle { LimitType::AxleCount } else { LimitType::MassTotal }, compare_type: CompareType::TpEqualRp }.validate().is_ok() }
     pub fn cats_ok(n: usize, v: [f64; 9]) -> bool {
         let a = [cat(v[0], v[1], v[2]), cat(v[3], v[4], v[5]), cat(v[6], v[7], v[8])];
         cats_validate(&a[..n]).is_ok()
